@@ -267,7 +267,50 @@ pub fn judge(acc: &mut Acc, wd: &mut Workdir, src: &str, origin: &str, assemble:
                 let _ = std::fs::remove_file(&obj);
             }
         } else {
-            // RISC-V: jump-table stride from the text (one instruction = 4 bytes by construction of the pseudo-assembly)
+            // RISC-V: the backend prints a pseudo-syntax (no commas, upper case, `LW x off base` for a
+            // 64-bit load).  A purely syntactic transliteration makes it acceptable to clang's RISC-V
+            // assembler, which then judges mnemonics, operand kinds, immediate ranges and labels.
+            match rv_to_gas(&asm.text) {
+                Ok(gas) => {
+                    let sfile = wd.fresh("s");
+                    if std::fs::write(&sfile, &gas).is_ok() {
+                        let obj = sfile.with_extension("o");
+                        let o = Command::new("clang").args(["--target=riscv64", "-march=rv64im", "-mno-relax", "-c", "-o"]).arg(&obj).arg(&sfile).output();
+                        match o {
+                            Ok(o) if o.status.success() => {
+                                acc.count("rv64_assembled_by_clang");
+                                // table entries are single JALs: measure them
+                                let syms = symbols(&obj);
+                                for (table, k, next) in jump_tables(&asm.text, "JAL X0") {
+                                    if let (Some(a), Some(b)) = (syms.get(&table), syms.get(&next)) {
+                                        acc.count("jump_tables_measured");
+                                        if b - a != 4 * k as u64 {
+                                            let m = format!("rv64: jump table {table} has {k} entries occupying {} bytes, tag arithmetic assumes 4 per entry", b - a);
+                                            acc.violation("C14:rv64:table-stride", m.clone(), rj(isa, &m));
+                                            ok = false;
+                                        }
+                                    }
+                                }
+                            }
+                            Ok(o) => {
+                                let m: String = String::from_utf8_lossy(&o.stderr).chars().take(600).collect();
+                                let first = m.lines().find(|l| l.contains("error")).unwrap_or("").to_string();
+                                let cls = first.rsplit("error:").next().unwrap_or("").trim().chars().take(40).collect::<String>();
+                                acc.violation(format!("C14:rv64:clang:{cls}"), format!("clang's RISC-V assembler rejects the (transliterated) rv64 file: {first}"), rj(isa, &m));
+                                ok = false;
+                            }
+                            Err(e) => acc.infra(format!("clang: {e}")),
+                        }
+                        let _ = std::fs::remove_file(&sfile);
+                        let _ = std::fs::remove_file(&obj);
+                    }
+                }
+                Err(m) => {
+                    acc.violation("C14:rv64:syntax", format!("rv64 line outside the backend's own pseudo-syntax: {m}"), rj(isa, &m));
+                    ok = false;
+                }
+            }
+            // jump-table stride from the text (one instruction = 4 bytes by construction of the pseudo-assembly)
             let stride = <axcut2rv64::Backend as Config<axcut2rv64::config::Register, axcut2rv64::config::Immediate>>::jump_length(1) as u64;
             if stride != 4 {
                 let m = format!("rv64: jump_length(1) = {stride}, but every table entry is one 4-byte JAL");
@@ -277,6 +320,67 @@ pub fn judge(acc: &mut Acc, wd: &mut Workdir, src: &str, origin: &str, assemble:
         }
     }
     ok && any
+}
+
+/// syntax-only transliteration of the RISC-V backend's pseudo-assembly into GNU syntax
+pub fn rv_to_gas(text: &str) -> Result<String, String> {
+    let reg = |r: &str| -> Result<String, String> {
+        let n: u32 = r.strip_prefix('X').and_then(|d| d.parse().ok()).ok_or_else(|| format!("not a register: {r}"))?;
+        if n > 31 {
+            return Err(format!("register out of range: {r}"));
+        }
+        Ok(format!("x{n}"))
+    };
+    let is_reg = |r: &str| r.starts_with('X') && r[1..].chars().all(|c| c.is_ascii_digit()) && r.len() > 1;
+    let mut out = String::from(".text\n");
+    for raw in text.lines() {
+        let line = raw.trim();
+        if line.is_empty() {
+            continue;
+        }
+        if let Some(c) = line.strip_prefix("//") {
+            out.push_str(&format!("# {}\n", c.replace('\n', " ")));
+            continue;
+        }
+        if let Some(l) = line.strip_suffix(':') {
+            if !l.contains(' ') {
+                out.push_str(&format!("{l}:\n"));
+                continue;
+            }
+        }
+        let t: Vec<&str> = line.split_whitespace().collect();
+        let bad = || format!("{line}");
+        let s = match (t[0], t.len()) {
+            ("ADD", 4) if is_reg(t[3]) => format!("add {}, {}, {}", reg(t[1])?, reg(t[2])?, reg(t[3])?),
+            ("ADD", 4) => format!("addi {}, {}, {}", reg(t[1])?, reg(t[2])?, t[3]),
+            ("SUB" | "MUL" | "DIV" | "REM", 4) => format!("{} {}, {}, {}", t[0].to_lowercase(), reg(t[1])?, reg(t[2])?, reg(t[3])?),
+            ("JAL", 3) => format!("jal {}, {}", reg(t[1])?, t[2]),
+            ("JALR", 4) => format!("jalr {}, {}({})", reg(t[1])?, t[3], reg(t[2])?),
+            ("LA", 3) => format!("la {}, {}", reg(t[1])?, t[2]),
+            ("LI", 3) => format!("li {}, {}", reg(t[1])?, t[2]),
+            ("MV", 3) => format!("mv {}, {}", reg(t[1])?, reg(t[2])?),
+            ("LW", 4) => format!("ld {}, {}({})", reg(t[1])?, t[2], reg(t[3])?),
+            ("SW", 4) => format!("sd {}, {}({})", reg(t[1])?, t[2], reg(t[3])?),
+            // conditional branches reach +-4 KiB only; GNU as relaxes a far one into the inverted
+            // branch over a jump, clang 14 does not: write that form directly (branch distance is
+            // not what this check judges)
+            ("BEQ" | "BNE" | "BLT" | "BLE" | "BGT" | "BGE", 4) => {
+                let inv = match t[0] {
+                    "BEQ" => "bne",
+                    "BNE" => "beq",
+                    "BLT" => "bge",
+                    "BGE" => "blt",
+                    "BLE" => "bgt",
+                    _ => "ble",
+                };
+                format!("{inv} {}, {}, 1f\nj {}\n1:", reg(t[1])?, reg(t[2])?, t[3])
+            }
+            _ => return Err(bad()),
+        };
+        out.push_str(&s);
+        out.push('\n');
+    }
+    Ok(out)
 }
 
 /// programs aimed at labels and tables: hostile definition names and a type with many constructors
